@@ -7,6 +7,25 @@ SERVER = "api::server::Server"
 SRVCTX = "api::server::SrvContext"
 
 
+import re as _re
+_LOG_TEXT = _re.compile(r"PartialOrd::le\((Error|Warn|Info|Debug|Trace)\b|log::|max_level")
+
+
+def is_log_text(t):
+    """a condition or value that belongs to the `log` macros' level test: logging is not behaviour any property speaks about"""
+    return bool(_LOG_TEXT.search(t))
+
+
+def is_log_call(c):
+    """a call emitted by the expansion of a `log` macro (level test, format arguments, the log call itself)"""
+    if not c.exp:
+        return False
+    k = c.res or c.fn or ""
+    if k.startswith("log::") or k.startswith("core::fmt::") or k.startswith("std::fmt::"):
+        return True
+    return c.name == "le" and any("log::Level" in (s or "") for s in (c.substs or []))
+
+
 def is_k_opcode(e):
     """('K', v, ty, 'abi::fuse_abi::Opcode::X::{{constant}}') -> X"""
     if e[0] == "CAST":
